@@ -114,7 +114,29 @@ let ok ?(nontrivial=true) ?(tags="") () =
 
 let split_ws s = List.filter (fun x -> x <> "") (String.split_on_char ' ' s)
 
-let run_driver (check : string -> string -> verdict) =
+(* Gallina literals for the vm_compute cross-check (driver --coq mode) *)
+let coq_n (x : n) : string = "(0x" ^ hex_of_n x ^ ")%N"
+let coq_bytes (l : byte list) : string =
+  "(map n2b [" ^ String.concat "; " (List.map (fun b -> string_of_int (int_of_byte b)) l) ^ "]%N)"
+
+let run_driver ?(coq : (string -> string -> string option) option) (check : string -> string -> verdict) =
+  if Array.length Sys.argv > 1 && Sys.argv.(1) = "--coq" then begin
+    (* print one Gallina boolean term per case (cases the driver cannot render are skipped) *)
+    (try
+      while true do
+        let line = input_line stdin in
+        match String.split_on_char '\t' line with
+        | [id; inp; obs] ->
+          (match coq with
+           | Some f -> (match f inp obs with
+                        | Some t -> Printf.printf "(* %s *) (%s) ::\n" id t
+                        | None -> ())
+           | None -> ())
+        | _ -> ()
+      done
+    with End_of_file -> ());
+    flush stdout; exit 0
+  end;
   (try
     while true do
       let line = input_line stdin in
